@@ -1,5 +1,5 @@
 /* Engine E1, kernel-level checks: C10 (orderings / elimination tree), C11 (equilibration). */
-#include "e1.h"
+#include "xs.h"
 #include "slu_ddefs.h"
 
 /* ========================================================================== C10 */
@@ -151,8 +151,8 @@ static void desc_10(int tier, char *b, size_t cap) { fam_describe(F10Q, NF(F10Q)
 static const char RULE10[] = "every pattern of the listed families x ordering method x SymmetricMode is passed through get_perm_c and sp_preorder; the returned etree is compared with the column elimination tree computed from its definition (symbolic Cholesky of (A Pc)'(A Pc)); non-trivial = n>=2 and at least one entry";
 
 /* ========================================================================== C11 */
-static const char *const CNT11[] = { "info_zero", "info_row", "info_col", "equed_N", "equed_R", "equed_C", "equed_B", "clamped_rows", "clamped_cols", "rect", "subnormal_inputs", "huge_inputs", "threshold_sweep", NULL };
-enum { E_OK, E_ROW, E_COL, E_N, E_R, E_C, E_B, E_CLR, E_CLC, E_RECT, E_SUB, E_HUGE, E_SWEEP };
+static const char *const CNT11[] = { "info_zero", "info_row", "info_col", "equed_N", "equed_R", "equed_C", "equed_B", "clamped_rows", "clamped_cols", "rect", "subnormal_inputs", "huge_inputs", "threshold_sweep", "driver_conformance_calls", "driver_scaled", NULL };
+enum { E_OK, E_ROW, E_COL, E_N, E_R, E_C, E_B, E_CLR, E_CLC, E_RECT, E_SUB, E_HUGE, E_SWEEP, E_DRV, E_DRVS };
 static const char *const RAT11[] = { "row_max_dev_over_4eps", "col_max_dev_over_4eps", NULL };
 
 /* magnitude alphabet per type */
@@ -299,6 +299,28 @@ static void run_C11(const vcase *c, vres *r)
             }
         }
         r->outcome = fnv(0, &equed, 1);
+        /* the drivers apply the same rule: xgssvx / xgsisx with Equil = YES on the original matrix must return the letter, the factors R and C and the
+           scaled values that xgsequ + xlaqgs produce (bit for bit), whatever the factorization then makes of the matrix.  Square, structurally non-singular
+           patterns of order <= 3, column storage, natural order, no right-hand side. */
+        if (c->aux != 1 && m == n && n <= 3 && pat_struct_rank(n, n, c->pat) == n) {
+            for (int ilu = 0; ilu < 2; ilu++) {
+                xs s; xs_init(&s, T, n, c->pat, 0, 0); sp_destroy(&s.S); sp_from_dense(&s.S, T, &A0, 0); s.A_orig = A0; s.ilu = ilu;
+                dmat B; memset(&B, 0, sizeof B); B.m = n; B.n = 0; xs_set_rhs(&s, &B, 0, 0);
+                superlu_options_t opt; if (ilu) { ilu_set_default_options(&opt); opt.RowPerm = NOROWPERM; } else set_default_options(&opt);
+                opt.Equil = YES; opt.ColPerm = NATURAL; opt.PrintStat = NO; opt.ConditionNumber = NO; opt.PivotGrowth = NO; opt.IterRefine = NOREFINE;
+                memset(&s.Glu, 0, sizeof s.Glu);
+                if (ref_numerically_singular(&A0)) WK_SET_FLAGS(WK_FLAG_SINGULAR);
+                xs_call(&s, &opt); WK_COUNT(E_DRV); if (s.equed[0] != 'N') WK_COUNT(E_DRVS);
+                const char *drv = ilu ? "gsisx" : "gssvx";
+                if (s.info < 0) wk_fail(r, "driver-rejected", "x%s rejected a valid call: info=%ld", drv, s.info);
+                else if (s.equed[0] != equed) wk_fail(r, "driver-equed", "x%s with Equil=YES returned equed='%c'; xgsequ + xlaqgs (rowcnd=%g colcnd=%g amax=%g) give '%c'", drv, s.equed[0], rowcnd, colcnd, amaxd, equed);
+                else if (rowequ && memcmp(s.Rbuf, Rb, T->rsz * n)) wk_fail(r, "driver-R", "x%s returned row scale factors that differ from xgsequ's", drv);
+                else if (colequ && memcmp(s.Cbuf, Cb, T->rsz * n)) wk_fail(r, "driver-C", "x%s returned column scale factors that differ from xgsequ's", drv);
+                else if (s.S.nnz != S.nnz || memcmp(s.S.nzval, S.nzval, T->esz * S.nnz)) wk_fail(r, "driver-A-scaling", "x%s left A with values that differ from diag(R) A diag(C) as xlaqgs forms it (equed='%c')", drv, equed);
+                xs_destroy(&s);
+                if (r->status == 1) goto done;
+            }
+        }
     }
 done:
     sp_destroy(&S);
